@@ -98,8 +98,45 @@ func (c04) Gates(tier string, m map[string]int64) []rt.Gate {
 	return gs
 }
 
+// aggregateField: a Boolean constant next to an aggregate comparison in a select field. The
+// rewrite may simplify, the field stays an aggregate: one row (no GROUP BY, pairs pass), holding
+// the value the operands have.
+func (k c04) aggregateField(c *rt.Ctx) {
+	r := c.R
+	forms := []struct {
+		f    string
+		want bool
+	}{
+		{"(1 = 1) | (count(1) > 0)", true}, {"(count(1) > 0) | (1 = 1)", true}, {"(1 = 2) & (count(1) > 0)", false}, {"(count(1) > 0) & (2 = 2)", true},
+		{"(1 = 2) | (count(1) > 99)", false}, {"(count(1) > 99) & (1 = 1)", false}, {"(sum(int(value)) >= 0) | ('a' = 'a')", true}, {"('a' = 'b') & (max(key) = 'k2')", false},
+		{"((1 = 1) | (count(1) > 0)) = (2 = 2)", true},
+	}
+	f := forms[r.Intn(len(forms))]
+	q := "select " + f.f + " as b where " + []string{"true", "key ^= 'k'", "int(value) >= 0"}[r.Intn(3)]
+	pairs := []refstore.Pair{{K: "k0", V: "1"}, {K: "k1", V: "2"}, {K: "k2", V: "3"}}
+	c.Rec.Inc("boolean_constants_around_aggregates")
+	for _, m := range []drive.Mode{{Batch: false, Size: 3, Cache: true}, {Batch: true, Size: 2, Cache: true}} {
+		o := drive.Run(q, refstore.New(pairs), m)
+		c.Rec.Eval(1)
+		if o.Status() == "planerr" {
+			c.Rec.NotJudged("aggregate field with a Boolean constant refused: " + firstWords(stripPos(o.ErrText())))
+			return
+		}
+		want := fmt.Sprintf("[[B%v]]", f.want)
+		if o.Status() != "ok" || fmt.Sprint(o.Rows) != want {
+			c.Violation("rewrite-changes-an-aggregate-field", "fullquery / aggregate / "+rt.Shape(f.f), func() rt.D {
+				return rt.D{"query": q, "mode": m.String(), "expected_rows": want, "outcome": outcomeBrief(o)}
+			})
+			return
+		}
+	}
+}
+
 func (k c04) Run(c *rt.Ctx) {
 	idx := c.Case
+	if idx%40 == 17 {
+		k.aggregateField(c)
+	}
 	nd1 := len(c04Depth1)/c04Block + 1
 	if idx < nd1 {
 		for i := idx * c04Block; i < (idx+1)*c04Block && i < len(c04Depth1); i++ {
@@ -273,6 +310,12 @@ func c04Random(r *rt.Rand) (*gen.Node, string) {
 				}
 			}
 		}
+		// & | and the keywords and / or, mixed
+		t.Walk(func(n *gen.Node) {
+			if n.K == gen.KBin && (n.Op == "and" || n.Op == "or") {
+				n.Sym = r.Chance(2, 3)
+			}
+		})
 		return t, "boolconst"
 	case 5: // constant calls
 		calls := []*gen.Node{gen.Call("upper", gen.Str("a")), gen.Call("int", gen.Str("3")), gen.Call("str", gen.Int(2)), gen.Call("float", gen.Str("1.5")), gen.Call("is_int", gen.Str("x")), gen.Call("strlen", gen.Str("ab")),
@@ -284,6 +327,7 @@ func c04Random(r *rt.Rand) (*gen.Node, string) {
 			// vector twin in batch mode: arguments at and beyond the ends of the text
 			gen.Call("substr", gen.Str("hello"), gen.Int(2), gen.Int(4)), gen.Call("substr", gen.Str("ab"), gen.Int(1), gen.Int(2)), gen.Call("substr", gen.Str("hello"), gen.Int(1), gen.Int(5)),
 			gen.Call("substr", gen.Str("hello"), gen.Int(0), gen.Int(3)), gen.Call("substr", gen.Str("hello"), gen.Int(4), gen.Int(9)), gen.Call("substr", gen.Str("hello"), gen.Int(5), gen.Int(1)),
+			gen.Call("str", gen.Str("ab")), gen.Call("str", gen.Bin("+", gen.Str("a"), gen.Str("b"))), gen.Call("str", gen.Call("lower", gen.Str("B"))), gen.Call("strlen", gen.Call("str", gen.Str("xyz"))), gen.Call("upper", gen.Call("str", gen.Str("k"))),
 			gen.Call("len", gen.Call("split", gen.Str("a,b,,c"), gen.Str(","))), gen.Call("strlen", gen.Int(12345)), gen.Call("strlen", gen.Bin("*", gen.Int(25), gen.Int(4))), gen.Call("str", gen.Call("strlen", gen.Str("h\xc3\xa9llo")))}
 		t := calls[r.Intn(len(calls))]
 		switch t.T {
